@@ -13,9 +13,11 @@ RULE = ('per object kind and request an exhaustive value grid (all in-range valu
         'ctl histories interleaved with encode/decode calls, where after every opus_encode the state left behind must be '
         'what the Lean step function computes for SOME value of the DSP-dependent inputs (720-point oracle grid) and inside '
         'the invariant ranges; forced-settings histories with exact prediction of mode/bandwidth/channels/toMono; '
-        'create/init argument grids incl. k-th allocation failure and init on caller memory; gen_toc on its whole domain; '
+        'create/init argument grids incl. k-th allocation failure and init on caller memory, surround and projection '
+        'constructors for every channel count 1..257 x family; gen_toc on its whole domain; '
         'frame_size_select grid; random settings fixed before the first frame (plus a mid-stream FORCE_CHANNELS change) -> '
-        'TOC of every packet; histories that re-select the application after OPUS_RESET_STATE (suite ctl-reapp); a '
+        'TOC of every packet, through all three entry points (opus_encode / opus_encode24 / opus_encode_float) and with more '
+        'samples supplied than a fixed frame duration needs; histories that re-select the application after OPUS_RESET_STATE (suite ctl-reapp); a '
         'deterministic corpus case (forced mono during a SILK-DTX run). S4 evaluates reject-unchanged / read-back / '
         'documented-legality / create predicates AND the honour predicates (duration, MDCT-only, channels, bandwidth) on '
         'every packet of every history against the settings the implementation itself reported before the call. '
@@ -233,7 +235,7 @@ def _history_violations(inp, outp):
                     if why:
                         res.append(('ctl-honour-history', prefix, 'every packet honours the settings in force', 'toc=%s' % f[4],
                                     'a packet produced by opus_encode contradicts the settings the encoder reported before '
-                                    'the call: ' + why))
+                                    'the call (entry point %s): ' % ('opus_encode', 'opus_encode24', 'opus_encode_float')[int(f[9]) % 3] + why))
                     # an encode call must not change a user setting (getters of the settings + the stored
                     # user_bitrate / user_bandwidth / user_forced_mode / lfe); voice_ratio is an analysis slot
                     nc = snap.split(',')
